@@ -94,7 +94,13 @@ def run(ctx):
         base = rng.randrange(0x380000)
         pairs.append((base, rng.randrange(0x380000 - base)))
     model = drv.ask([f"leg longptr {b} {p}" for b, p in pairs])
-    spec = drv.ask([f"spec.address 0 111 32768 {b + p}" for b, p in pairs])
+    # the formula covers the whole 4 MiB LoROM image (banks 0x00-0x7F), also beyond the banks the assembler's bus maps
+    pairs += [(0x380000, 0), (0x37FFF0, 0x20), (0x3F0000, 0x10), (0x3FFFFF, 0), (0x378000, 0x8000)]
+    for _ in range(60):
+        base = rng.randrange(0x340000, 0x400000)
+        pairs.append((base, rng.randrange(0x400000 - base)))
+    model = drv.ask([f"leg longptr {b} {p}" for b, p in pairs])
+    spec = drv.ask([f"spec.address 0 127 32768 {b + p}" for b, p in pairs])
     for (b, p), m_, sp in zip(pairs, model, spec):
         try:
             got = "ok " + long_low_rom_pointer(b)(p).hex()
